@@ -274,6 +274,41 @@ func (d *decoder) fhDecideOffsets(h *fractalHeap, ids [][]byte, at uint64) {
 	}
 }
 
+// fhDecideByHash settles the offset base when no heap ID happens to fall inside
+// a block header (so fhDecideOffsets saw no evidence): every name-index record
+// carries the lookup3 hash of the object's name, which identifies the decoding
+// that yields the right object. If no record's object, read at its specified
+// position, has a name with the recorded hash, but objects read at
+// payload-relative positions do, the heap is decoded payload-relative.
+func (d *decoder) fhDecideByHash(h *fractalHeap, ids [][]byte, hashes []uint32, nameOf func([]byte) (string, bool), at uint64) {
+	if h == nil || !h.ok || h.payloadRelative || len(ids) != len(hashes) {
+		return
+	}
+	matches := func() int {
+		n := 0
+		for i, id := range ids {
+			d.trial(func() bool {
+				if obj, ok := d.fhObject(h, id, at); ok {
+					if name, ok := nameOf(obj); ok && Lookup3([]byte(name), 0) == hashes[i] {
+						n++
+					}
+				}
+				return false // never keep findings of a probe
+			})
+		}
+		return n
+	}
+	if len(ids) == 0 || matches() > 0 {
+		return
+	}
+	h.payloadRelative = true
+	if matches() == 0 {
+		h.payloadRelative = false
+		return
+	}
+	d.finding("heap-id-offset-base", at, "no managed object read at its heap ID's position in the heap's linear address space has the name hash of its index record, but every position counted from the end of the direct block header does: offsets are payload-relative; decoded that way")
+}
+
 // fhObject returns the bytes of the heap object named by a heap ID.
 func (d *decoder) fhObject(h *fractalHeap, id []byte, at uint64) ([]byte, bool) {
 	if h == nil || !h.ok || len(id) == 0 {
@@ -533,6 +568,25 @@ func (d *decoder) readDenseLinks(li *linkInfo, owner string) []Link {
 		}
 	}
 	d.fhDecideOffsets(h, ids, li.heap)
+	{
+		var hs []uint32
+		var hids [][]byte
+		for _, r := range t.records {
+			if len(r) > 4 {
+				hs = append(hs, (&cur{b: r}).u32())
+				hids = append(hids, r[4:])
+			}
+		}
+		d.fhDecideByHash(h, hids, hs, func(obj []byte) (string, bool) {
+			if l, ok := d.parseLink(obj, li.heap); ok {
+				return l.Name, true
+			}
+			if al, ok := altDenseLink(obj, d); ok {
+				return al.Name, true
+			}
+			return "", false
+		}, li.heap)
+	}
 	for i, r := range t.records {
 		c := &cur{b: r}
 		hash := c.u32()
@@ -621,6 +675,24 @@ func (d *decoder) readDenseAttrs(ai *attrInfo, owner string) []Attr {
 		}
 	}
 	d.fhDecideOffsets(h, ids, ai.heap)
+	{
+		var hs []uint32
+		var hids [][]byte
+		for _, r := range t.records {
+			switch {
+			case t.typ == 8 && len(r) >= 17:
+				hids = append(hids, r[:8])
+				hs = append(hs, (&cur{b: r[13:]}).u32())
+			case t.typ == 5 && len(r) > 4:
+				hids = append(hids, r[4:])
+				hs = append(hs, (&cur{b: r}).u32())
+			}
+		}
+		d.fhDecideByHash(h, hids, hs, func(obj []byte) (string, bool) {
+			a, ok := d.parseAttribute(obj, ai.heap, owner)
+			return a.Name, ok
+		}, ai.heap)
+	}
 	var out []Attr
 	var prev uint32
 	for i, r := range t.records {
